@@ -388,6 +388,22 @@ pub fn gen_pair(rng: &mut Rng, rec: &mut Recorder) -> Pair {
         // singletons present on none / one / both sides
         if rng.chance(1, 3) {
             am.mod_par = None;
+        } else if rng.chance(1, 4) {
+            // a MOD_PAR that holds no MEMORY_SEGMENT (all of B's segments are new then); references
+            // of A to its segments go with them so that A stays consistent
+            if let Some(mp) = &mut am.mod_par {
+                mp.memory_segment.retain(|_| false);
+                rec.bump("pair.A_mod_par_without_memory_segments");
+            }
+            for x in am.measurement.iter_mut() {
+                x.ref_memory_segment = None;
+            }
+            for x in am.characteristic.iter_mut() {
+                x.ref_memory_segment = None;
+            }
+            for x in am.axis_pts.iter_mut() {
+                x.ref_memory_segment = None;
+            }
         }
         if rng.chance(1, 3) {
             am.mod_common = None;
